@@ -694,9 +694,18 @@ func (vc *VC) havocForLoop(st *State, body ast.Node, extra ...ast.Node) {
 	}
 	// heaps: havoc exactly those the body can write, found by a dry run of the body from an
 	// all-heaps-havocked state (rolled back afterwards)
+	vc.lastWritten = nil
 	if vc.mayWriteHeap(body) {
 		written := vc.dryRunWrites(st, body, extra)
 		vc.havocHeaps(st, written)
+		vc.lastWritten = written
+		if written == nil {
+			vc.lastWritten = map[string]bool{}
+			for k := range st.heaps {
+				vc.lastWritten[k] = true
+			}
+		}
+		vc.frameAssume(st, vc.lastWritten)
 	}
 }
 
@@ -1011,10 +1020,14 @@ func (vc *VC) loopHead(st *State, ls *LoopSpec, ord int, loop ast.Node, body ast
 	vc.loopStack = append(vc.loopStack, snap)
 	for k, inv := range ls.Invariants {
 		t := vc.specIn(st, inv)
-		vc.assertNamed(st, fmt.Sprintf("inv-init[%d,%d]", ord, k), "inv-init", t.S, loop.Pos(), inv.Text)
+		vc.assertNamed(st, fmt.Sprintf("inv-init[%d,%s]", ord, clauseID(inv, k)), "inv-init", t.S, loop.Pos(), inv.Text)
 	}
 	head := st.clone()
 	vc.havocForLoop(head, body, post)
+	if vc.loopWrites == nil {
+		vc.loopWrites = map[int]map[string]bool{}
+	}
+	vc.loopWrites[ord] = vc.lastWritten
 	snap.head = head
 	for _, inv := range ls.Invariants {
 		t := vc.specIn(head, inv)
@@ -1031,11 +1044,12 @@ func (vc *VC) loopBackEdge(body *State, ls *LoopSpec, ord int, loop ast.Node, va
 	}
 	for k, stp := range ls.Steps {
 		t := vc.specIn(body, stp)
-		vc.assertNamed(body, fmt.Sprintf("step[%d,%d]", ord, k), "step", t.S, loop.Pos(), stp.Text)
+		vc.assertNamed(body, fmt.Sprintf("step[%d,%s]", ord, clauseID(stp, k)), "step", t.S, loop.Pos(), stp.Text)
 	}
+	vc.frameAssert(body, vc.loopWrites[ord], ord, loop)
 	for k, inv := range ls.Invariants {
 		t := vc.specIn(body, inv)
-		vc.assertNamed(body, fmt.Sprintf("inv-pres[%d,%d]", ord, k), "inv-pres", t.S, loop.Pos(), inv.Text)
+		vc.assertNamed(body, fmt.Sprintf("inv-pres[%d,%s]", ord, clauseID(inv, k)), "inv-pres", t.S, loop.Pos(), inv.Text)
 	}
 	if ls.Decreases != nil {
 		v := vc.specIn(body, ls.Decreases)
@@ -1111,10 +1125,11 @@ func (vc *VC) execRange(st *State, x *ast.RangeStmt) *State {
 	defer func() { vc.loopStack = vc.loopStack[:len(vc.loopStack)-1] }()
 	for k, inv := range ls.Invariants {
 		t := vc.specIn(head0, inv)
-		vc.assertNamed(head0, fmt.Sprintf("inv-init[%d,%d]", ord, k), "inv-init", t.S, x.Pos(), inv.Text)
+		vc.assertNamed(head0, fmt.Sprintf("inv-init[%d,%s]", ord, clauseID(inv, k)), "inv-init", t.S, x.Pos(), inv.Text)
 	}
 	head := head0.clone()
 	vc.havocForLoop(head, x.Body)
+	rangeWrites := vc.lastWritten
 	iv := vc.fresh("i", sortInt)
 	head.vars[idxVar] = iv
 	if n != "" {
@@ -1200,11 +1215,12 @@ func (vc *VC) execRange(st *State, x *ast.RangeStmt) *State {
 		}
 		for k, stp := range ls.Steps {
 			t := vc.specIn(body, stp)
-			vc.assertNamed(body, fmt.Sprintf("step[%d,%d]", ord, k), "step", t.S, x.Pos(), stp.Text)
+			vc.assertNamed(body, fmt.Sprintf("step[%d,%s]", ord, clauseID(stp, k)), "step", t.S, x.Pos(), stp.Text)
 		}
+		vc.frameAssert(body, rangeWrites, ord, x)
 		for k, inv := range ls.Invariants {
 			t := vc.specIn(body, inv)
-			vc.assertNamed(body, fmt.Sprintf("inv-pres[%d,%d]", ord, k), "inv-pres", t.S, x.Pos(), inv.Text)
+			vc.assertNamed(body, fmt.Sprintf("inv-pres[%d,%s]", ord, clauseID(inv, k)), "inv-pres", t.S, x.Pos(), inv.Text)
 		}
 		_ = variant0
 	}
